@@ -41,6 +41,9 @@ def _validated_value(ck, fi, cfg, node, expr) -> tuple[bool, str]:
     return True, f"every definition of `{expr.id}` reaching here is a self._validate(...) result"
 
 
+_UNDEF17 = type('_Undef', (), {'__repr__': lambda self: '<UNDEF>', '__bool__': lambda self: False})()
+
+
 def run(ck):
     ck.explanation = (
         "Input / InputExp (edzed/blocklib/sblocks2.py): the validator stages run in the order "
@@ -409,21 +412,29 @@ def run(ck):
         cp_run_ok = None
         try:
             bad_ = []
-            for accept in (True, False):
+            for accept, prior in ((True, None), (False, None), (True, 'same'), (True, 'other'), (False, 'same')):
+                # prior: the block already holds a value (the same one: a periodic refresh, which must be
+                # accepted like any other put - it restarts the expiration)
                 sd = {'other': 1}
+                if prior is not None:
+                    sd['input'] = ('VALIDATED', 'RAW') if prior == 'same' else ('VALIDATED', 'OLD')
+                sd0 = dict(sd)
 
                 def _val(v, accept=accept):
                     if not accept:
                         raise ValueError('rejected')
                     return ('VALIDATED', v)
                 env = {'fsm.fsm_event_data.get()': {'value': 'RAW'}, 'fsm_event_data.get()': {'value': 'RAW'},
-                       'self._validate': _val, 'self.sdata': sd}
+                       'self._validate': _val, 'self.sdata': sd, 'block.UNDEF': _UNDEF17, 'UNDEF': _UNDEF17,
+                       'self._state': 'valid' if prior else 'expired', 'self.state': 'valid' if prior else 'expired'}
                 res = MiniEval(R3, env, resolve=_resolver(iexp)).run(cp.node.body)
                 ck.abstract_cases += 1
                 want = (('return', True), {'other': 1, 'input': ('VALIDATED', 'RAW')}) if accept else \
-                    (('return', False), {'other': 1})
+                    (('return', False), sd0)
                 if (res, sd) != want:
-                    bad_.append(f"validator {'accepts' if accept else 'rejects'}: returns {res}, sdata {sd}")
+                    bad_.append(f"validator {'accepts' if accept else 'rejects'}"
+                                + (f", block already holds {'the same' if prior == 'same' else 'another'} value"
+                                   if prior else '') + f": returns {res}, sdata {sd}")
             cp_run_ok = not bad_
             ck.ob(R3, f"{cp.fid} :: abstract run", cp_run_ok,
                   "an accepted value is stored in its validated form and the condition is true; a rejected "
